@@ -93,7 +93,7 @@ class NormBased:
         q0 = 2*res0@dres0
         p1 = res1@res1
         q1 = 2*res1@dres1
-        if q0 >= 0:
+        if not q0 < 0:
             raise SolverError('search vector does not reduce residual')
         c = math.fsum([-3*p0, 3*p1, -2*q0, -q1])
         d = math.fsum([2*p0, -2*p1, q0, q1])
